@@ -55,7 +55,15 @@ def _gen_parts(rng: random.Random, boundary: bytes):
                           "ctype": rng.choice(["text/plain", "application/octet-stream", "image/png", "text/plain; charset=utf-8"]),
                           "data": _blob(rng, boundary)})
         else:
-            parts.append({"kind": "field", "name": name, "fname": "", "ctype": "", "data": _text(rng)})
+            val = _text(rng)
+            if rng.random() < 0.15:
+                # long values: longer than the decoder's hold-back window, so that they reach the form parser
+                # in several Data events (multi-byte characters then straddle event boundaries)
+                # (half of them without line breaks: the decoder holds data back from the last line break on, so
+                # only long runs without one are flushed at arbitrary byte offsets)
+                alpha = rng.choice(["a\u00e9\u20ac\U0001f600\u4e2d \r\n-", "\u00e9\u20ac\U0001f600\u4e2da-"])
+                val = "".join(rng.choice(alpha) for _ in range(rng.randint(80, 400)))
+            parts.append({"kind": "field", "name": name, "fname": "", "ctype": "", "data": val})
     return parts
 
 
